@@ -33,6 +33,11 @@ pub struct StationaryScenario {
     pub n_particles: u64,
     pub k: u64,
     pub seed: u64,
+    /// energy-conserving orbits (ExactNormal on a standard normal with the identity transformation): every state
+    /// of a trajectory has the same weight up to rounding, so inside the sub-tree added by the last accepted
+    /// doubling the selected state lies in the newer half with probability 1/2 (uniform multinomial selection)
+    #[serde(default)]
+    pub equal_weight_selection: bool,
 }
 
 /// Cholesky factor (lower, row-major) of a symmetric positive definite matrix
@@ -189,6 +194,7 @@ impl Scenario for StationaryScenario {
         let mut depth_sum = 0u64;
         let mut n_maxdepth = 0u64;
         let mut r0 = Prng::new(splitmix64(self.seed ^ 0x5EED_0002));
+        let (mut sel_trials, mut sel_newer, mut sel_outside_last_half) = (0u64, 0u64, 0u64);
         for p in 0..n {
             let mut x = iid_sample(&self.target, &mut r0).unwrap();
             for (fi, v) in features(&self.target, &x).iter().enumerate() {
@@ -200,7 +206,35 @@ impl Scenario for StationaryScenario {
             }
             let mut rng = RandAdapter(Prng::new(splitmix64(self.seed ^ (p as u64).wrapping_mul(0x9E3779B97F4A7C15))));
             for _ in 0..self.k {
-                match nuts_rs::verif::nuts_draw(&mut math, &vt, kind, self.step_size, &x, &mut rng, &opts) {
+                if self.equal_weight_selection {
+                    nuts_rs::verif::tap_enable();
+                }
+                let res = nuts_rs::verif::nuts_draw(&mut math, &vt, kind, self.step_size, &x, &mut rng, &opts);
+                if self.equal_weight_selection {
+                    let tap = nuts_rs::verif::tap_take();
+                    nuts_rs::verif::tap_disable();
+                    if let Ok(o) = &res {
+                        // complete tree of depth D >= 2 (every doubling accepted): start + 2^D - 1 leapfrog states
+                        let dpt = o.depth;
+                        if !o.diverging && dpt >= 2 && dpt <= 20 && tap.len() as u64 == 1u64 << dpt && tap.iter().all(|t| !t.failed && !t.divergent) {
+                            let spread = tap.iter().map(|t| (t.energy - tap[0].energy).abs()).fold(0.0, f64::max);
+                            if spread <= 1e-9 {
+                                let half = 1usize << (dpt - 1);
+                                let quarter = half / 2;
+                                let last_half = &tap[tap.len() - half..];
+                                if last_half.iter().any(|t| t.index == o.index) {
+                                    sel_trials += 1;
+                                    if tap[tap.len() - quarter..].iter().any(|t| t.index == o.index) {
+                                        sel_newer += 1;
+                                    }
+                                } else {
+                                    sel_outside_last_half += 1;
+                                }
+                            }
+                        }
+                    }
+                }
+                match res {
                     Ok(o) => {
                         if o.diverging {
                             n_div += 1;
@@ -268,6 +302,33 @@ impl Scenario for StationaryScenario {
             }
         }
         out.probe("stationary_statistics_checked", (nf * 5) as u64);
+        if self.equal_weight_selection {
+            out.probe("equal_weight_selection_trials", sel_trials);
+            out.probe("equal_weight_selection_outside_last_doubling", sel_outside_last_half);
+            if sel_trials >= 400 {
+                let phat = sel_newer as f64 / sel_trials as f64;
+                let z = (phat - 0.5) / (0.25 / sel_trials as f64).sqrt();
+                if debug {
+                    eprintln!("equal-weight selection: {sel_newer}/{sel_trials} in the newer half (z {z:.1}), {sel_outside_last_half} outside the last doubling");
+                }
+                if z.abs() > crit {
+                    out.violate(
+                        format!("{}/stationary/equal_weights_not_selected_uniformly/{tname}_{kname}", self.prop),
+                        format!("energy-conserving orbits (all states of a trajectory have the same weight to 1e-9): in {sel_trials} complete trees of depth >= 2 whose draw came from the last doubling, the draw lay in the newer half of that sub-tree {sel_newer} times (fraction {phat:.4}, expected 1/2; z = {z:.1}, critical {crit}); step size {}, maxdepth {}", self.step_size, self.maxdepth),
+                    );
+                    return out;
+                }
+                // with equal weights the last doubling is accepted as a whole with probability min(1, w_new / w_old) = 1
+                let tot = sel_trials + sel_outside_last_half;
+                if sel_outside_last_half as f64 > 0.01 * tot as f64 + 5.0 {
+                    out.violate(
+                        format!("{}/stationary/equal_weight_doubling_not_taken/{tname}_{kname}", self.prop),
+                        format!("energy-conserving orbits: in {sel_outside_last_half} of {tot} complete trees the draw did not come from the last accepted doubling although it carries the same weight as the rest of the tree"),
+                    );
+                    return out;
+                }
+            }
+        }
         out
     }
 
